@@ -255,11 +255,20 @@ class Ctx:
 
 # ---------------------------------------------------------------------- known findings
 def load_known(pid):
-    p = os.path.join(VERIF, "known_findings.json")
-    if not os.path.exists(p):
-        return []
-    data = json.load(open(p))
-    return [e for e in data.get("findings", []) if e.get("property") == pid and not e.get("fixed")]
+    """Entries of the committed known_findings.json for this property.  VERIF_KNOWN_EXTRA=<file> adds
+    proposed entries while a check is being developed (never set by a registered command)."""
+    out = []
+    paths = [os.path.join(VERIF, "known_findings.json")]
+    if os.environ.get("VERIF_KNOWN_EXTRA"):
+        paths.append(os.environ["VERIF_KNOWN_EXTRA"])
+    for p in paths:
+        if not os.path.exists(p):
+            continue
+        data = json.load(open(p))
+        if isinstance(data, dict):
+            data = data.get("findings", [])
+        out += [e for e in data if e.get("property") == pid and not e.get("fixed")]
+    return out
 
 
 def match_known(known, sig):
